@@ -9,18 +9,18 @@ ROOT=/verif/.build
 LIB=$ROOT/lib/$FL
 DRV=$ROOT/drv/$FL
 CM=(-DMINIMAL=ON)
-CF=""; BT=Release; DRVF="-O1"; NODRV=0
+CF=""; BT=Release; DRVF="-O1"; NODRV=0; DEFS=""
 IFS='+' read -ra TOK <<< "$FL"
 for t in "${TOK[@]}"; do
   case $t in
     rel) ;;
     san) CF="-O1 -g -fno-omit-frame-pointer -fsanitize=address,undefined -fno-sanitize-recover=all"; BT=Debug; DRVF="$CF";;
     tsan) CF="-O1 -g -fsanitize=thread"; BT=Debug; DRVF="$CF";;
-    c32) CM+=(-DBACKEND_C32=ON);;
-    c64) CM+=(-DBACKEND_C64=ON);;
-    dxor) CM+=(-DBACKEND_DIRECT_XOR=ON);;
-    generic) CM+=(-DBACKEND_GENERIC=ON);;
-    chk) CM+=(-DCHECK_ACQUIRE_RELEASE=ON);;
+    c32) CM+=(-DBACKEND_C32=ON); DEFS="$DEFS -DASCON_FORCE_C32";;
+    c64) CM+=(-DBACKEND_C64=ON); DEFS="$DEFS -DASCON_FORCE_C64";;
+    dxor) CM+=(-DBACKEND_DIRECT_XOR=ON); DEFS="$DEFS -DASCON_FORCE_DIRECT_XOR";;
+    generic) CM+=(-DBACKEND_GENERIC=ON); DEFS="$DEFS -DASCON_FORCE_GENERIC";;
+    chk) CM+=(-DCHECK_ACQUIRE_RELEASE=ON); DEFS="$DEFS -DASCON_FORCE_GENERIC -DASCON_CHECK_ACQUIRE_RELEASE";;
     ks[234]) CM+=(-DKEY_SHARES=${t#ks});;
     ds[1234]) CM+=(-DDATA_SHARES=${t#ds});;
     ms[234]) CM+=(-DMAX_SHARES=${t#ms});;
@@ -38,7 +38,7 @@ H=/verif/harness
 # rebuild the driver when any harness source or the library is newer
 if [ ! -x $DRV/drv ] || [ -n "$(find $H $LIB/src/libascon_static.a -newer $DRV/drv -print -quit)" ]; then
   SHARES=$(grep -h "define ASCON_MASKED_.*SHARES\|define ASCON_MASKED_MAX" $LIB/version.h 2>/dev/null | tr '\n' ' ')
-  g++ -std=c++11 $DRVF -Wall -Wno-unused-function -DHAVE_CONFIG_H -I$REPO/src -I$LIB -I$H \
+  g++ -std=c++11 $DRVF $DEFS -Wall -Wno-unused-function -DHAVE_CONFIG_H -I$REPO/src -I$LIB -I$H \
       $(ls $H/drv_*.cpp $H/wrap_trng.cpp) $LIB/src/libascon_static.a \
       -Wl,--wrap=ascon_trng_generate,--wrap=ascon_trng_generate_64,--wrap=ascon_trng_generate_32 \
       -lpthread -o $DRV/drv.tmp 2>$DRV/build.log || { cat $DRV/build.log >&2; exit 4; }
